@@ -386,7 +386,7 @@ func init() {
 			for i := 0; i < 16; i++ {
 				s := d.NewSpec("enum", fmt.Sprintf("enum-%d", i), i, 16)
 				s.N = d.Pick(5, 6)
-				s.TimeoutS = 1800
+				s.TimeoutS = int(d.Pick(300, 1800))
 				specs = append(specs, s)
 			}
 			for i := 0; i < 8; i++ {
